@@ -1,2 +1,13 @@
-#!/bin/sh
-exit 0
+#!/bin/bash
+# Build the framework offline from files on disk and self-test the stubs.
+set -u
+export VERIF_HOME="$(cd "$(dirname "$0")" && pwd)"
+export VERIF_REPO="${VERIF_REPO:-/repo}"
+export CARGO_NET_OFFLINE=true
+cd "$VERIF_HOME" || exit 2
+mkdir -p out evidence
+cp "$VERIF_REPO/Cargo.lock" sim/Cargo.lock
+(cd sim && cargo build --release --offline) > out/build.log 2>&1 || { echo "HARNESS-ERROR: build failed"; tail -n 40 out/build.log; exit 2; }
+./target/release/sim selftest || exit 2
+if [ -x js/run_jsim.sh ]; then ./js/run_jsim.sh selftest || exit 2; fi
+echo "setup ok"
